@@ -10,7 +10,9 @@ use crate::ls::{Ls, flagged_words, with_runtime};
 use crate::util::{Args, Out, Rng};
 
 const W: [&str; 5] = ["zzyzxq", "Zzyzxq", "qwertzuv", "naïvetéx", "ZZYZXQ"];
-const DOC: &str = "We saw zzyzxq and Zzyzxq then qwertzuv with naïvetéx or ZZYZXQ but teh end";
+// `github`, `markdown`: other capitalisations of curated entries (GitHub, Markdown), reported until the user adds them
+const CURATED_VARIANTS: [&str; 2] = ["github", "markdown"];
+const DOC: &str = "We saw zzyzxq and Zzyzxq then qwertzuv with naïvetéx or ZZYZXQ but teh end of github and markdown";
 
 fn read_words(p: &Path) -> Option<Vec<String>> {
     std::fs::read_to_string(p).ok().map(|s| s.lines().map(|l| l.to_string()).collect())
@@ -37,6 +39,8 @@ fn file_dict_path(dir: &Path, doc: &Path) -> PathBuf {
 }
 
 struct Sess {
+    /// where the user dictionary is configured to be right now
+    user_path: PathBuf,
     dir: PathBuf,
     ls: Ls,
     docs: Vec<(String, PathBuf)>,
@@ -64,7 +68,7 @@ impl Sess {
             let url = tower_lsp::lsp_types::Url::parse(u).unwrap();
             crate::dictionary_io::file_dict_name(&url).map(|p| p.to_string_lossy().to_string()).unwrap_or_default()
         }).collect();
-        let mut s = Self { ls: Ls::new(&dir), dir, docs, evs: vec![json!({"ev": "Reset"}),
+        let mut s = Self { user_path: dir.join("user/dictionary.txt"), ls: Ls::new(&dir), dir, docs, evs: vec![json!({"ev": "Reset"}),
             json!({"ev": "Deep", "path_bytes": plen, "name_bytes": names.iter().map(|n| n.len()).max().unwrap_or(0), "same_name": names[0] == names[1]})] };
         s.boot();
         s
@@ -86,7 +90,7 @@ impl Sess {
             std::fs::write(&path, raw.as_bytes()).unwrap();
             evs.push(json!({"ev": "Preexisting", "scope": scope, "doc": 1, "words": words, "raw": raw}));
         }
-        let mut s = Self { ls: Ls::new(&dir), dir, docs, evs };
+        let mut s = Self { user_path: dir.join("user/dictionary.txt"), ls: Ls::new(&dir), dir, docs, evs };
         s.boot();
         s
     }
@@ -98,13 +102,15 @@ impl Sess {
         }
     }
     fn restart(&mut self) {
+        let settings = self.ls.settings.clone();
         self.ls = Ls::new(&self.dir);
+        self.ls.settings = settings;
         self.boot();
         self.evs.push(json!({"ev": "Restart"}));
     }
     /// what is on disk and what each document's latest diagnostics flag
     fn observe(&mut self) {
-        let user = read_words(&self.dir.join("user/dictionary.txt"));
+        let user = read_words(&self.user_path);
         self.evs.push(json!({"ev": "Reloaded", "scope": "user", "doc": 0, "present": user.is_some(), "words": user.unwrap_or_default()}));
         for (i, (_, p)) in self.docs.clone().iter().enumerate() {
             let w = read_words(&file_dict_path(&self.dir, p));
@@ -120,6 +126,28 @@ impl Sess {
             let other = d.as_array().map(|a| a.iter().filter(|x| !x["message"].as_str().unwrap_or("").starts_with("Did you mean")).count()).unwrap_or(0);
             self.evs.push(json!({"ev": "Published", "doc": i + 1, "flagged": flagged, "other": other}));
         }
+    }
+    /// The client's settings now name another user dictionary; the server learns of it only by asking
+    /// (workspace/configuration during the next document update), no didChangeConfiguration is sent.
+    /// The old location is removed, so that anything written there afterwards shows.
+    fn move_user_dict_silently(&mut self) {
+        let old = self.user_path.clone();
+        let new = self.dir.join("user2/words.txt");
+        if let Some(parent) = new.parent() { std::fs::create_dir_all(parent).unwrap(); }
+        if old.exists() { std::fs::copy(&old, &new).unwrap(); }
+        self.ls.settings["harper-ls"]["userDictPath"] = json!(new.to_string_lossy());
+        self.user_path = new;
+        for (uri, _) in self.docs.clone() {
+            let h = self.ls.did_change(&uri, 3, DOC);
+            self.ls.run_to_completion(h, Duration::from_secs(20));
+        }
+        let _ = std::fs::remove_dir_all(old.parent().unwrap());
+        self.evs.push(json!({"ev": "Moved"}));
+    }
+    /// has anything appeared at the location that is no longer configured?
+    fn stray(&mut self) {
+        let old = self.dir.join("user");
+        self.evs.push(json!({"ev": "Stray", "exists": old.exists()}));
     }
     fn add(&mut self, scope: &str, w: &str, doc: usize) {
         let uri = self.docs[doc - 1].0.clone();
@@ -190,6 +218,33 @@ pub fn main(a: &Args) {
                     let _ = std::fs::remove_dir_all(&s.dir);
                 }
             }
+        }
+        // (1d) words that are other capitalisations of curated entries
+        for scope in ["user", "file"] {
+            for w in CURATED_VARIANTS {
+                let mut s = Sess::new(base.join(format!("s{n}"))); n += 1;
+                s.observe();
+                s.add(scope, w, 1);
+                s.observe();
+                s.add(if scope == "user" { "file" } else { "user" }, W[0], 2);
+                s.restart();
+                s.observe();
+                for e in s.evs.drain(..) { out.emit(&e); }
+                let _ = std::fs::remove_dir_all(&s.dir);
+            }
+        }
+        // (1e) the user dictionary is moved in the client's settings without an announcement
+        for first in [true, false] {
+            let mut s = Sess::new(base.join(format!("s{n}"))); n += 1;
+            if first { s.add("user", W[2], 1); s.observe(); }
+            s.move_user_dict_silently();
+            s.add("user", W[0], 1);
+            s.observe();
+            s.stray();
+            s.restart();
+            s.observe();
+            for e in s.evs.drain(..) { out.emit(&e); }
+            let _ = std::fs::remove_dir_all(&s.dir);
         }
         // (1c) documents with long paths (the file dictionary's name is the whole path flattened)
         for (seg, depth) in [(20usize, 4usize), (30, 9), (40, 12)] {
